@@ -103,6 +103,21 @@ CLAIMED = {
         text="spec/PlssDesc.tla models layout deduction and section rejection (colon rule, 'of/in' rule, cautious second pass) and from them the situations in which exactly one whole-text tract is due; TLC emits every case with that verdict, the harness parses it and TLC checks: forced or deduced copy_all / must-fall-back => exactly one tract carrying the entire preprocessed text, an error flag unless both a Twp/Rge and a section were found, and never two whole-text tracts.",
         note="Trusted: token rendering (harness/plsstok.py, render.py), the projection of public attributes in harness/impl.py (typing and 'whole text' facts are computed in Python and judged in TLA+). The marker walk that assigns text to tracts is not yet modelled action by action (planned PlssWalk.tla); verdicts do not depend on it.",
         design_ref='§5.1, §6 C11'),
+    "C13": dict(
+        technique="TLA+ codec (Encode/Decode) and a life-cycle model of one setting through its channels "
+                  "(Create/Assign/Parse) checked by TLC; every codec assignment and every scenario replayed; TLC trace "
+                  "validation of round trips and of scenario-vs-reference equality",
+        text="TLC checks Decode(Encode(c)) = c for every assignment with up to two settings set and that, in the life-cycle "
+             "model, the strongest channel governs the parse; each emitted assignment is built through text / from_dict / "
+             "from_kwargs, decompiled and read back (plus random full assignments, unknown names => ValueError); each emitted "
+             "scenario (target x setting x value x channel x conflicting value in a weaker channel, incl. MasterConfig) is "
+             "executed on a probe description where the setting is observable together with its reference scenario (value "
+             "given in the config string at creation) and TLC requires equal projected results and agreement with the model's "
+             "governing value.",
+        note="Trusted: probe descriptions per setting, projection of results. Scenarios vary one setting at a time; a .config "
+             "assigned after creation counts as the later (stronger) config channel. Tract: only settings that affect "
+             "Tract.parse (default directions / ocr_scrub matter only in from_twprgesec, covered by C12).",
+        design_ref="§5.7, §6 C13"),
 }
 
 NOT_APPLICABLE = {
